@@ -45,12 +45,12 @@ type c07Op struct {
 	Dt   uint32 `json:"dt,omitempty"`
 	Src  int    `json:"src,omitempty"` // index into the source pool
 	// discover
-	EncAs   int  `json:"enc_as,omitempty"` // index into Creds whose credential seals the metadata; -1 garbage
-	Hint    int  `json:"hint,omitempty"`   // index into Creds whose NAME the nonce names; -1 none; -3 the colliding pair
-	Record  bool `json:"record,omitempty"`
-	Hold    bool `json:"hold,omitempty"` // keep the Authentication for a later record-held
-	ReqCur  bool `json:"require_current,omitempty"`
-	During  []int `json:"reload_during,omitempty"` // SetUsers(these) from the afterAttempt seam
+	EncAs  int   `json:"enc_as,omitempty"` // index into Creds whose credential seals the metadata; -1 garbage
+	Hint   int   `json:"hint,omitempty"`   // index into Creds whose NAME the nonce names; -1 none; -3 the colliding pair
+	Record bool  `json:"record,omitempty"`
+	Hold   bool  `json:"hold,omitempty"` // keep the Authentication for a later record-held
+	ReqCur bool  `json:"require_current,omitempty"`
+	During []int `json:"reload_during,omitempty"` // SetUsers(these) from the afterAttempt seam
 	// reload
 	Users []int `json:"users,omitempty"`
 	// cache-record
